@@ -576,6 +576,52 @@ pub fn check(s: &Session, h: &History, stats: &mut Stats) -> Option<Violation> {
             });
         }
     }
+    // (c3) ... and they are those of the final TEXT: a fresh server that is simply given the final
+    // text of every document publishes the same list (this does not go through the history, so a
+    // defect that the sequential reference of (c2) shares is still seen)
+    {
+        let root_uri = format!("file://{}", s.root);
+        let mut ops = preamble(Some(&root_uri));
+        for k in &disk_ops {
+            if matches!(s.ops[*k].op, Op::Disk(_)) {
+                ops.push(PlannedOp::new(s.ops[*k].op.clone()));
+            }
+        }
+        for u in &order {
+            if open_now.get(u) == Some(&true) {
+                ops.push(PlannedOp::new(Op::Open { uri: u.clone(), text: models[u].text.clone() }));
+                ops.push(PlannedOp::new(Op::Barrier));
+            }
+        }
+        let fh = reference_session(s, ops, s.hash_seed);
+        stats.reference_sessions += 1;
+        let want = last_diagnostics(&fh);
+        let got = last_diagnostics(h);
+        let crash_fired = h.faults.get("query_crash").copied().unwrap_or(0) > 0;
+        for (uri, is_open) in &open_now {
+            if !*is_open || got.get(uri) == want.get(uri) {
+                continue;
+            }
+            if crash_fired && got.get(uri).map_or(false, |v| v.as_array().map_or(false, |a| a.is_empty())) {
+                continue;
+            }
+            let g = got.get(uri);
+            let kind = match g {
+                None => "never_published",
+                Some(v) if v.as_array().map_or(false, |a| a.is_empty()) => "last_is_empty",
+                _ => "last_differs",
+            };
+            return Some(Violation {
+                oracle: "converges.diagnostics_of_final_text".into(),
+                kinds: vec![kind.into()],
+                detail: format!(
+                    "last diagnostics published for {uri}: {} ; a fresh server given the final text publishes {}",
+                    g.map_or("none".to_string(), |v| v.to_string().chars().take(300).collect::<String>()),
+                    want.get(uri).map_or("none".to_string(), |v| v.to_string().chars().take(300).collect::<String>())
+                ),
+            });
+        }
+    }
     // (c2) the last diagnostics of each open document are those of the same history fed sequentially
     let rh = reference_session(s, s.ops.clone(), s.hash_seed);
     stats.reference_sessions += 1;
